@@ -4,7 +4,7 @@ CONSTANTS
   MaxLen = 1
   UpdKinds = {"load"}
   Nests = {"flat", "seq", "blocks", "dict", "alias"}
-  MatchOpts <- Opts_quick
+  MatchOpts <- Opts_q3
 INVARIANT CurrentWeights
 INVARIANT CurrentStats
 INVARIANT OptionsOfThisCall
